@@ -11,6 +11,12 @@
 //    "B found ; ncand (feasible [c x y]*)* ; value ;placement ; check"   (candidate positions as positionsOnSwap/positionOnInsert give them BEFORE the call)
 //    for the passes: "P value ;placement ; check"; for runShiftsOnCells: "S <row structure before> | k (cell newx)*k ; value ;placement ; check"
 // placement = x y orient of every cell after DetailedPlacer::exportPlacement into a copy of the circuit.
+// After an op that ran the shift pass (5, 7), when /repo carries the hook coloquinte_verif_shift_hook, one extra segment
+// " / L <ints>" per call of runShiftsOnCells: the state BEFORE the call, the min-cost-flow problem the C++ built, lemon's
+// answer and the positions written (the input of the shift-LP model driver, ocaml/driver_shift.ml, tag SL):
+//    nrows (minX maxX ncells (id x w)*)*  npos pos*  nnets (npins (cell off)*)*  k cell*k
+//    nnodes (kind id supply potential)*  narcs (src tgt cost flow)*  k newx*k
+//    kind: 0 cell, 1 L_net, 2 U_net, 3 fixed; src/tgt are node indices.
 #include "vh.hpp"
 #include <optional>
 #include <unordered_set>
@@ -28,6 +34,32 @@ static std::string rowsDump(const DetailedPlacement &dp) {
   for (int r = 0; r < dp.nbRows(); ++r) { auto cs = dp.rowCells(r); s << " " << dp.rows()[r].minX << " " << dp.rows()[r].maxX << " " << cs.size(); for (int c : cs) s << " " << c << " " << dp.cellX(c) << " " << dp.cellWidth(c); }
   return s.str();
 }
+// ---- records of the shift-pass linear programmes (filled by the hook; empty when /repo has no hook) ----
+static DetailedPlacer *g_pl = nullptr;
+static std::vector<int> g_prevX, g_prevTopo;   // placement_.cellX_ / xtopo_.cellPos_ before the current runShiftsOnCells call
+static std::vector<std::string> g_lp;
+static void lpSnap() { if (g_pl) { g_prevX = g_pl->placement_.cellX_; g_prevTopo = g_pl->xtopo_.cellPos_; } }
+struct LpScope { explicit LpScope(DetailedPlacer *p) { g_pl = p; g_lp.clear(); lpSnap(); } ~LpScope() { g_pl = nullptr; } };
+extern "C" void coloquinte_verif_shift_hook(const void *placer, int nbCells, const int *cells, int nbNodes, const int *nodeKind,
+                                            const int *nodeId, const long long *nodeSupply, const long long *nodePotential, int nbArcs,
+                                            const int *arcSource, const int *arcTarget, const long long *arcCost, const long long *arcFlow) {
+  if (!g_pl || placer != (const void *)g_pl) return;
+  const DetailedPlacement &dp = g_pl->placement_; const IncrNetModel &xt = g_pl->xtopo_;
+  if (g_lp.size() < 200 && g_prevX.size() == dp.cellX_.size() && g_prevTopo.size() == xt.cellPos_.size()) {
+    std::ostringstream s;
+    s << dp.nbRows();
+    for (int r = 0; r < dp.nbRows(); ++r) { auto cs = dp.rowCells(r); s << " " << dp.rows()[r].minX << " " << dp.rows()[r].maxX << " " << cs.size(); for (int c : cs) s << " " << c << " " << g_prevX[c] << " " << dp.cellWidth(c); }
+    s << " " << g_prevTopo.size(); for (int v : g_prevTopo) s << " " << v;
+    s << " " << xt.nbNets(); for (int n = 0; n < xt.nbNets(); ++n) { s << " " << xt.nbNetPins(n); for (int i = 0; i < xt.nbNetPins(n); ++i) s << " " << xt.pinCell(n, i) << " " << xt.netPinOffset(n, i); }
+    s << " " << nbCells; for (int i = 0; i < nbCells; ++i) s << " " << cells[i];
+    s << " " << nbNodes; for (int i = 0; i < nbNodes; ++i) s << " " << nodeKind[i] << " " << nodeId[i] << " " << nodeSupply[i] << " " << nodePotential[i];
+    s << " " << nbArcs; for (int i = 0; i < nbArcs; ++i) s << " " << arcSource[i] << " " << arcTarget[i] << " " << arcCost[i] << " " << arcFlow[i];
+    s << " " << nbCells; for (int i = 0; i < nbCells; ++i) s << " " << dp.cellX(cells[i]);
+    g_lp.push_back(s.str());
+  }
+  lpSnap();
+}
+
 static std::string chk(DetailedPlacer &pl) { try { pl.check(); return "ok"; } catch (std::exception &e) { return std::string("CHECKFAIL ") + e.what(); } }
 
 int main(int argc, char **argv) {
@@ -64,6 +96,7 @@ int main(int argc, char **argv) {
       ColoquinteParameters p(3);
       try { c.legalize(p); } catch (std::exception &e) { printf("NOLEG\n"); continue; }
       DetailedPlacer pl(c, p);
+      LpScope lpScope(&pl);
       auto &dp = pl.placement_;
       std::vector<int> opt; for (int i = 0; i < dp.nbCells(); ++i) if (!dp.isIgnored(i) && dp.isPlaced(i)) opt.push_back(i);
       printf("INIT %lld ;%s", pl.value(), statePl(pl, c).c_str());
@@ -71,6 +104,7 @@ int main(int argc, char **argv) {
       auto cellOf = [&](long long v) { return opt.empty() ? -1 : opt[(size_t)(v % (long long)opt.size())]; };
       for (int k = 0; k < nops; ++k) {
         int ty = (int)r.nx();
+        g_lp.clear(); lpSnap();
         try {
           if (ty == 0 || ty == 1 || ty == 2) {
             std::vector<int> cands; int cc, row = -1;
@@ -111,6 +145,7 @@ int main(int argc, char **argv) {
             } else { pl.runReorderingOnCells(cells); printf(" / P"); }
           }
           printf(" ; %lld ;%s ; %s", pl.value(), statePl(pl, c).c_str(), chk(pl).c_str());
+          for (const std::string &rec : g_lp) printf(" / L %s", rec.c_str());
         } catch (std::exception &e) { printf(" / THROW %s", e.what()); break; }
       }
       printf("\n");
